@@ -100,7 +100,7 @@ Definition model_prog (e : entry) : list stage :=
   match e with
   | ERaw => [SCheckReady; SDecide; SLoadInfo; SReaperEnter; SReapRaw; SReaperExit; SDeleteIf; SReturn]
   | EToDs => [SCheckReady; SDecide; SLoadInfo; SPure; SReaperEnter; SReapDs; SReaperExit; SDeleteIf; SReturn]
-  | ERunner => [SCall EToDs CuVar; SRecordLast; SReturn]
+  | ERunner => [SLoadInfo; SCall EToDs CuVar; SRecordLast; SReturn]   (* the constants recorded at sow time *)
   | EHarvest => [SGuard; SCall ERunner CuFalse; SSync; SDefault; SDeleteIf; SReturn]
   | ESamples => [SGuard; SCall ERunner CuFalse; SSync; SDefault; SDeleteIf; SReturn]
   end.
